@@ -191,7 +191,7 @@ def run(module_path: str, cfg: str, env: dict | None = None, workers: int | str 
             if re.match(r"Error: The postcondition .* is violated|Error: Evaluating postcondition|Error: Postcondition", line) or "postcondition" in line.lower() and "violated" in line.lower():
                 res.violated = res.violated or "Postcondition"
             if coverage:
-                m = re.match(r"<(\w+) line \d+, col \d+ to line \d+, col \d+ of module (\w+)>: (\d+):(\d+)", line)
+                m = re.match(r"<(\w+) line \d+, col \d+ to line \d+, col \d+ of module (\w+)(?: \([\d ]+\))?>: (\d+):(\d+)", line)
                 if m:
                     res.coverage[m.group(1)] = (int(m.group(3)), int(m.group(4)))
         if simulate and res.generated == 0:
